@@ -248,6 +248,14 @@ def covSetFrame (h : Heap) (c : Nat) (fr : Fr) (env : Env := noEnv) : Res Unit :
         | _, _ => (h, .error .bad)
   | _ => (h, .error .bad)
 
+/-- the `except` clause of the frame setter (/repo 45ca5d0): the covariance could not follow — the coordinates saved on
+entry (`old_coord = np.array(self)`, bit for bit) are written back and `_data["frame"]` is set to the previous Frame -/
+def restoreSV (h : Heap) (s : SV) : Heap :=
+  let h := write h s.buf (.buf s.val)
+  match h[s.data]? with
+  | some (.dict items) => write h s.data (.dict (insert "frame" (.frame s.frame) items))
+  | _ => h
+
 /-- `sv.frame = <Frame object fr>` -/
 def setFrameTo (h : Heap) (a : Nat) (fr : Fr) (env : Env := noEnv) : Res Unit :=
   match getSV h a with
@@ -259,8 +267,13 @@ def setFrameTo (h : Heap) (a : Nat) (fr : Fr) (env : Env := noEnv) : Res Unit :=
       match lookup "cov" s.items with
       | some (.addr c) =>
         match h[c]? with
-        | some (.cov _ cfr _ _) => if cfr = s.frame then covSetFrame h c fr env else (h, .ok ())
-        | _ => (h, .error .bad)
+        | some (.cov _ cfr _ _) =>
+          if cfr = s.frame then
+            match covSetFrame h c fr env with
+            | (h, .error e) => (restoreSV h s, .error e)
+            | (h, .ok ()) => (h, .ok ())
+          else (h, .ok ())
+        | _ => (restoreSV h s, .error .bad)
       | _ => (h, .ok ())
 
 /-- `sv.frame = name` -/
@@ -655,19 +668,60 @@ def arrSet (h : Heap) (a : Nat) : Res Unit :=
       | _ => (h, .error .bad)
     | _ => (h, .error .attr)
 
-/-! ### `copy.deepcopy(sv)` as the code has it (open finding C15-deepcopy-shares-data) -/
+/-! ### `copy.deepcopy(sv)` (/repo fd4f2bf: `StateVector.__deepcopy__`) -/
 
-/-- `copy.deepcopy(sv)` / `copy.copy(sv)`: StateVector defines neither `__deepcopy__` nor `__copy__`, so `ndarray`'s run: the
-buffer is duplicated and `__array_finalize__` hands the new object `obj._data.copy()` — a SHALLOW copy of the dict:
-every container, the maneuver list, the covariance object and the propagator are the receiver's own -/
-def stdDeepcopy (h : Heap) (a : Nat) : Res Nat :=
-  match getSV h a with
-  | none => (h, .error .bad)
+/-- the maneuver list of the state vector at `x`, if it has one -/
+def mansOfSV (h : Heap) (x : Nat) : Option (SV × Nat) :=
+  match getSV h x with
   | some s =>
-    let (h, b) := alloc h (.buf s.val)
-    let (h, d) := alloc h (.dict s.items)
-    let (h, n) := alloc h (.sv s.orbit b d)
-    (h, .ok n)
+    match lookup "maneuvers" s.items with
+    | some (.addr l) => some (s, l)
+    | _ => none
+  | none => none
+
+/-- `obj._data["maneuvers"] = <deep copy r>` -/
+def setMans (h : Heap) (x : Nat) (r : Ref) : Heap :=
+  match getSV h x with
+  | some s => write h s.data (.dict (insert "maneuvers" r s.items))
+  | none => h
+
+/-- the private state of the covariance of the state vector at `n` (`new.cov.orb`), if there is a covariance -/
+def covOrb (h : Heap) (n : Nat) : Option Nat :=
+  match getSV h n with
+  | some s =>
+    match lookup "cov" s.items with
+    | some (.addr c) => (match h[c]? with | some (.cov _ _ orb _) => some orb | _ => none)
+    | _ => none
+  | none => none
+
+/-- `deepcopy(<the maneuver list at l>, memo)` when there is one -/
+def deepMansOf (st : DState) (ol : Option Nat) : DState × Option (Option Ref) :=
+  match ol with
+  | some l =>
+    match deepRef deepFuel st (.addr l) with
+    | (st, some r) => (st, some (some r))
+    | (st, none) => (st, none)
+  | none => (st, some none)
+
+def setMansOpt (h : Heap) (ox : Option Nat) (r : Option Ref) : Heap :=
+  match ox, r with
+  | some x, some r => setMans h x r
+  | _, _ => h
+
+/-- `copy.deepcopy(sv)`: `new = self.copy()`, then for `new` and — when there is a covariance — `new.cov.orb`:
+`obj._data["maneuvers"] = deepcopy(obj._data["maneuvers"], memo)` with ONE memo (a maneuver object found in both lists
+is duplicated once). The two deep copies are taken first and the two dict entries written afterwards; the code interleaves
+them, which cannot be told apart: `deepcopy` of a maneuver list reads no `_data` dict. -/
+def stdDeepcopy (h : Heap) (a : Nat) : Res Nat :=
+  match copySV h a with
+  | (h, .error e) => (h, .error e)
+  | (h1, .ok n) =>
+    let orb := covOrb h1 n
+    let d1 := deepMansOf { h := h1 } ((mansOfSV h1 n).map (·.2))
+    let d2 := deepMansOf d1.1 ((orb.bind (mansOfSV h1)).map (·.2))
+    match d1.2, d2.2 with
+    | some r1, some r2 => (setMansOpt (setMansOpt d2.1.h (some n) r1) orb r2, .ok n)
+    | _, _ => (d2.1.h, .error .bad)
 
 /-! ### constructors given an existing object -/
 
